@@ -67,6 +67,19 @@ def blocks_for_fn(unit, f, all_texts):
     return out or list(all_texts)
 
 
+def fn_was_changed(unit, f):
+    """True when some source item that the Verus function name f can denote differs from the template"""
+    segs = f.split('::')
+    fname = segs[-1]
+    tname = segs[-2] if len(segs) > 1 and '%' not in segs[-2] else None
+    cands = [it for it in unit.items if it['kind'] == 'fn' and it['path'].split(' :: ')[-1] == 'fn ' + fname]
+    if tname is not None:
+        c2 = [it for it in cands if re.search(r'\b%s\b' % re.escape(tname), it['path'])]
+        if c2:
+            cands = c2
+    return any(it['status'] != 'identical' for it in cands)
+
+
 def sha(path):
     try:
         return hashlib.sha256(open(path, 'rb').read()).hexdigest()
@@ -207,6 +220,13 @@ def run_check(pid, pc, tier, seed, repo, work, t0, replay):
                 all_texts.extend(tx)
             for f, tx in r.failed:
                 texts_ = blocks_for_fn(r.unit, f, all_texts)
+                if not fn_was_changed(r.unit, f):
+                    # modular verification: the obligation of a function depends on its own body and on the
+                    # contracts (which live in the template). Its body is token-identical to the template's, so
+                    # this failure cannot be caused by the tree under test: an unstable proof, never an alarm.
+                    undecided.append('unit %s: %s failed although its source text is unchanged (unstable proof; '
+                                     'not attributable to /repo)' % (u, f))
+                    continue
                 if f not in exp and f != '(unnamed)':
                     undecided.append('unit %s: %s failed but is not an obligation of the ledger' % (u, f))
                     continue
